@@ -115,6 +115,7 @@ class Lang:
         self.memo = {}
         self.reg = ref.registered()
         self.minds = ref.minds()
+        self.recursive = ref.recursive()
 
     def count(self, t, m):
         """|{values of type t with depth <= m}|, capped"""
@@ -259,8 +260,10 @@ def walk(ref: Ref, lang: Lang, b, v, t, k, d, mode, out, hints):
             nxt = next(p for p in prods if ref.is_below(n, p))
             if mode == "grow":
                 sup = [p for p in prods if lang.minds[p] <= rem]
+            elif mode == "full":
+                sup = [p for p in prods if lang.full_nonempty(["cls", p], rem) is True]
             else:
-                sup = None  # full / pigrow: judged by membership only at this level
+                sup = None  # pi-grow: the property only asks it to stay inside the language
             out.append(("choice", None if sup is None else tuple(sorted("T:" + p for p in sup)), "T:" + nxt, ("abstract", cur, rem)))
             cur = nxt
         for fn, ft in ref.cls[n]["fields"]:
@@ -314,6 +317,59 @@ def lib_union_key(x, b):
     return "?"
 
 
+def compare_supports(events, want, lang, mode):
+    """pair the decisions logged at the random seam with the reference decisions of the finished program; None if they agree,
+    else (cause class, detail).  Cause classes are structural: option-withheld/<class of the option>, infeasible-option-offered,
+    draw-range, decision-count."""
+    ev = [(e[0], (e[1] if e[0] == "choice" else tuple(e[1])), e[2], (e[3] if len(e) > 3 else None)) for e in events]
+    wa = [(k, (None if s is None else (s if k == "choice" else tuple(s))), v, c) for k, s, v, c in want]
+    if mode == "full":
+        # only abstract decisions carry a judged support in full mode; unions are judged by membership
+        pass
+    left_ev = list(ev)
+    left_wa = []
+    for w_ in wa:
+        k, s_, v, c = w_
+        hit = None
+        for i, e in enumerate(left_ev):
+            if e[0] == k and e[2] == v and (s_ is None or e[1] == s_):
+                if c and c[0] == "abstract" and e[3] is not None and e[3] != (c[1], lang.d - c[2]):
+                    continue  # same option and support, but logged for another position
+                hit = i
+                break
+        if hit is None:
+            left_wa.append(w_)
+        else:
+            left_ev.pop(hit)
+    if not left_wa and not left_ev:
+        return None
+    for w_ in left_wa:
+        k, s_, v, c = w_
+        cand = [e for e in left_ev if e[0] == k and e[2] == v]
+        if not cand:
+            continue
+        # prefer the logged decision taken for the same symbol at the same level (pairing hint from the decider call)
+        exact = [e for e in cand if c and c[0] == "abstract" and e[3] == (c[1], lang.d - c[2])]
+        e = (exact or cand)[0]
+        if k == "randint":
+            return ("draw-range", f"{c}: library drew from {e[1]}, reference range {s_}")
+        withheld = sorted(set(s_) - set(e[1]))
+        offered = sorted(set(e[1]) - set(s_))
+        if offered:
+            return ("infeasible-option-offered", f"{c}: offered {offered} beyond the reference support {list(s_)}")
+        if withheld:
+            p = withheld[0][2:]
+            if c and c[0] == "abstract":
+                rem = c[2]
+                rec = p in lang.recursive
+                md = lang.minds.get(p)
+                cls = ("recursive" if rec else "non-recursive") + ("-exact-fit" if md == rem else ("-shallower" if md is not None and md < rem else "-deeper"))
+            else:
+                cls = c[0] if c else "other"
+            return (f"option-withheld/{cls}", f"{c}: reference support {list(s_)}, library offered {list(e[1])}")
+    return ("decision-count", f"unmatched reference decisions {[(w_[0], w_[2], w_[3]) for w_ in left_wa[:2]]}, unmatched logged decisions {left_ev[:2]}")
+
+
 def hash_of(c):
     import hashlib
 
@@ -344,9 +400,11 @@ def run(ctx):
             return
         d = rm + H.draw(4)
         lang = Lang(ref)
+        lang.d = d
         size = lang.count(["cls", spec["start"]], d)
         while size > lang.cap and d > rm:
             d -= 1
+            lang.d = d
             size = lang.count(["cls", spec["start"]], d)
         if size > lang.cap:
             ctx.stat("skipped:language-too-large")
@@ -365,13 +423,15 @@ def run(ctx):
             rnd = SimRandom(ctx, policy, log=False)
             events = []
             depth_guard = [0]
+            pending = [None]
 
             def monitor(kind, args, result):
                 if kind == "choice":
                     depth_guard[0] = 1  # the randint that follows belongs to this choice
                     first = args[0] if args else None
                     if isinstance(first, (type,)) or hasattr(first, "__metadata__") or hasattr(first, "__origin__"):
-                        events.append(("choice", tuple(sorted(lib_union_key(x, b) for x in args)), lib_union_key(result, b)))
+                        events.append(("choice", tuple(sorted(lib_union_key(x, b) for x in args)), lib_union_key(result, b), pending[0]))
+                        pending[0] = None
                     else:
                         events.append(("choice", tuple(sorted(key_of(x, b) for x in args)), key_of(result, b)))
                 elif kind == "randint":
@@ -392,6 +452,14 @@ def run(ctx):
                 dec = I.FullDecider(rnd, g, d + 1)  # what FullInitializer(d) constructs
             else:
                 dec = I.PositionIndependentGrowDecider(rnd, g, d)
+            # pairing hint only (never part of the verdict): which symbol, at which library depth, the next choice belongs to
+            orig_choose = dec.choose_production_alternatives
+
+            def hinted(ty, alternatives, cx, __orig=orig_choose):
+                pending[0] = (b.name_of.get(ty), cx.depth)
+                return __orig(ty, alternatives, cx)
+
+            dec.choose_production_alternatives = hinted
             rep = TreeBasedRepresentation(g, dec)
             try:
                 p = rep.create_genotype(rnd)
@@ -427,19 +495,12 @@ def run(ctx):
             decisions += len(want)
             for w_ in want:
                 contexts.add(w_[3])
-            if mode == "grow":
-                got = Counter((k, s if k == "choice" else tuple(s), v) for k, s, v in events)
-                exp = Counter((k, s if k == "choice" else tuple(s), v) for k, s, v, _ in want)
-                if got != exp:
-                    missing = list((exp - got).items())[:2]
-                    extra = list((got - exp).items())[:2]
-                    kind = "option-withheld-or-offered" if any(m[0][0] == "choice" for m in missing) else "draw-range"
-                    ctx.violate(f"C04/support/{mode}/{kind}",
-                                f"decisions offered by the library differ from the reference at depth limit {d}: expected-but-not-seen {missing}, seen-but-not-expected {extra}")
+            if mode in ("grow", "full"):
+                cause = compare_supports(events, want, lang, mode)
+                if cause:
+                    kind, detail = cause
+                    ctx.violate(f"C04/support/{mode}/{kind}", f"decisions offered by the library differ from the reference at depth limit {d}: {detail}")
                     return
-            else:
-                # full / pi-grow: every chosen option must be one the reference allows at all (membership), supports not judged
-                pass
         ctx.stat("creations", n_create)
         ctx.stat("decisions", decisions)
         ctx.stat("programs_reached", len(seen))
